@@ -788,10 +788,12 @@ class RefProblem:
                 x = w[j] - s * g[j]
                 u, vmin = pen.prox_1d(x, s, j)
                 res[j] = abs(w[j] - u)
-                if not pen.convex and res[j] > 1e-6 * (1 + abs(u)):
+                if not pen.convex and res[j] > 0.1 * max(abs(u), abs(w[j])):
+                    # a tie between two *distinct* global minimisers (0 and a point a jump away): purely relative
+                    # objective comparison, so that a tiny non-zero minimiser next to 0 is not mistaken for one
                     vw = float(pen.prox_obj_1d(w[j], x, s, j))
-                    if leq(vw, vmin, rel=1e-12):
-                        res[j] = 0.0  # a tie: w_j is another global minimiser, hence a fixed point
+                    if abs(vw - vmin) <= 1e-10 * abs(vmin):
+                        res[j] = 0.0
         elif pen.kind in RefPenalty.GRP:
             groups = pen.p["groups"]
             res = np.zeros(len(groups))
@@ -817,8 +819,8 @@ class RefProblem:
                 x = w[j] - s * g[j]
                 u, vmin = pen.prox_block(x, s, j)
                 res[j] = norm(w[j] - u)
-                if not pen.convex and res[j] > 1e-6 * (1 + norm(u)) and \
-                        leq(pen.prox_block_obj(w[j], x, s, j), vmin, rel=1e-12):
+                if not pen.convex and res[j] > 0.1 * max(norm(u), norm(w[j])) and \
+                        abs(pen.prox_block_obj(w[j], x, s, j) - vmin) <= 1e-10 * abs(vmin):
                     res[j] = 0.0
         else:
             raise KeyError(pen.kind)
